@@ -205,6 +205,10 @@ class Run:
         os.makedirs(os.path.join(VERIF, 'replay'), exist_ok=True)
         os.makedirs(os.path.join(VERIF, 'evidence'), exist_ok=True)
         replay_paths = {}
+        if not getattr(self, 'replaying', False):
+            import glob
+            for old in glob.glob(os.path.join(VERIF, 'replay', '%s-*.json' % self.prop)):
+                os.unlink(old)
         for s in by_sig:
             h = hashlib.blake2b(s.encode(), digest_size=5).hexdigest()
             for n, v in enumerate(by_sig[s][:2]):
@@ -251,7 +255,7 @@ class Run:
         ev = {'property_id': self.prop, 'tier': self.tier, 'seed': int(self.seed), 'level': self.level,
               'coverage': cov, 'assumptions': self.assumptions, 'wall_s': round(wall, 2),
               'violations': len(new_sigs)}
-        with open(os.path.join(VERIF, 'evidence', '%s.json' % self.prop), 'w') as f:
+        with open(os.path.join(VERIF, 'evidence', '%s%s.json' % (self.prop, '.replay' if getattr(self, 'replaying', False) else '')), 'w') as f:
             json.dump(ev, f, indent=1, default=str)
         shutil.rmtree(self.workdir, ignore_errors=True)
         print('%s: %s  evaluations=%d distinct_nontrivial=%d known_findings=%d wall=%.1fs' % (
@@ -277,6 +281,7 @@ def main(argv):
             build(getattr(mod, 'PACKAGE', 'avmon-exec'))
         if a.replay:
             case = json.load(open(a.replay))
+            run.replaying = True
             mod.replay(run, case)
         else:
             mod.check(run)
